@@ -1763,14 +1763,10 @@ func ReadTerm(vm *VM, streamOrAlias, out, options Term, k Cont, env *Env) *Promi
 	}
 
 	p := NewParser(vm, s)
-	defer func() {
-		_ = s.UnreadRune()
-	}()
-
 	t, err := p.Term()
 	switch err {
 	case nil:
-		break
+		s.peeked(endOfStreamNot, nil, s.UnreadRune)
 	case io.EOF:
 		return Unify(vm, out, atomEndOfFile, k, env)
 	case errWrongIOMode:
@@ -1780,6 +1776,7 @@ func ReadTerm(vm *VM, streamOrAlias, out, options Term, k Cont, env *Env) *Promi
 	case errPastEndOfStream:
 		return Error(permissionError(operationInput, permissionTypePastEndOfStream, streamOrAlias, env))
 	default:
+		_ = s.UnreadRune()
 		return Error(syntaxError(err, env))
 	}
 
@@ -1921,10 +1918,9 @@ func PeekByte(vm *VM, streamOrAlias, inByte Term, k Cont, env *Env) *Promise {
 		return Error(typeError(validTypeInByte, inByte, env))
 	}
 
+	eos := s.endOfStream
 	b, err := s.ReadByte()
-	defer func() {
-		_ = s.UnreadByte()
-	}()
+	s.peeked(eos, err, s.UnreadByte)
 	switch err {
 	case nil:
 		return Unify(vm, inByte, Integer(b), k, env)
@@ -1959,10 +1955,9 @@ func PeekChar(vm *VM, streamOrAlias, char Term, k Cont, env *Env) *Promise {
 		return Error(typeError(validTypeInCharacter, char, env))
 	}
 
+	eos := s.endOfStream
 	r, _, err := s.ReadRune()
-	defer func() {
-		_ = s.UnreadRune()
-	}()
+	s.peeked(eos, err, s.UnreadRune)
 	switch err {
 	case nil:
 		if r == unicode.ReplacementChar {
